@@ -26,6 +26,17 @@ VIAS = ["Point", "get_point"]
 
 TOL = 1e-9       # well-conditioned quantities: TOL * (1 + |value|)
 TOL_SQRT = 1e-6  # sqrt-eps class: arccosh near 1, conformal coordinates of ideal points
+EPS = 2.2e-16
+
+
+def acosh_tol(d, delta):
+    """Bound on |arccosh(max(cosh d + e, 1)) - d| over |e| <= delta: arccosh is increasing and concave on
+    [1, oo), hence never more than arccosh(1 + delta) ~ sqrt(2 delta); and at most 2 delta / sinh d once
+    delta <= (cosh d - 1) / 2 (mean value theorem; (c^2 - 1) >= sinh^2 d / 4 for c >= (cosh d + 1) / 2)."""
+    hi = math.acosh(1.0 + delta) if delta > 1e-4 else math.sqrt(2.0 * delta)   # acosh(1+x) itself loses digits for tiny x
+    if d > 0.0 and delta <= math.sinh(d / 2.0) ** 2:          # (cosh d - 1) / 2 = sinh^2 (d / 2)
+        return min(hi, 2.0 * delta / math.sinh(d))
+    return hi
 
 
 # ------------------------------------------------------------------------------------------
@@ -318,7 +329,8 @@ def case_shape(case):
 # direction u has, in closed form, hyperboloid (cosh R, sinh R u), Klein tanh(R) u, Poincare tanh(R/2) u;
 # these oracle coordinates are computed from (R, u) directly, so they are well conditioned for large R.
 # ------------------------------------------------------------------------------------------
-FAR_RADII = [3.0, 5.0, 7.0, 9.0, 12.0]
+FAR_RADII = [3.0, 5.0, 7.0, 9.0, 10.0, 11.0, 12.0, 14.0]
+FAR_NEAR = [0.0, 1e-3, 1e-1]     # same-ray partners at distance s beyond the point (0.0: the point itself)
 FAR_START = ["hyperboloid", "projective", "poincare", "halfspace", "klein"]
 
 
@@ -392,7 +404,42 @@ def case_far(case):
             tolm = (1e-9 + 1e-14 * (math.cosh(R) ** 2 + math.cosh(R2) ** 2)) * (1.0 + d0)
             if not abs(dm - d0) <= tolm:
                 v.append({"key": "far/model-metric/%s" % m, "msg": "%s: %s closed-form metric on the library's coordinates gives %r, distance is %r" % (where, m, dm, d0)})
-    return {"v": v, "t": t, "o": "%d|%g|%s|%d" % (n, R, start, len(v)), "nt": True}
+    # the point itself, equal copies of it entered through every model, and very close points on the same ray:
+    # the inner product of the two unit hyperboloid vectors is cosh(s) + e with |e| <~ eps cosh^2 R, so the
+    # reported distance can only be demanded to arccosh(1 + e) ~ sqrt(2 e) -- but it must be a finite,
+    # non-negative number, never NaN (the product rounding to slightly below 1 is not an excuse)
+    zero_class = 0
+    for s in FAR_NEAR:
+        w2 = far_oracle(R + s, u)
+        delta = 16.0 * EPS * math.cosh(R) * math.cosh(R + s)
+        # + displacement of a point entered in Klein/Poincare/half-space coordinates (1-|k|^2 known to eps cosh^2 R)
+        tol = acosh_tol(s, delta) + 32.0 * EPS * math.cosh(R + s) ** 2 + 1e-9
+        others = [("the same object", pt)] if s == 0.0 else []
+        others += [(("an equal copy built from %s coordinates" % m2) if s == 0.0 else
+                    ("the point at distance %g further out, built from %s coordinates" % (s, m2)), build(w2[m2], m2)) for m2 in FAR_START]
+        for label, other in others:
+            for a, b, order in ((pt, other, ""), (other, pt, " (reversed)")):
+                d = np.asarray(_dist(a, b))
+                t += 1
+                if d.shape != () or d.dtype.kind != "f":
+                    v.append({"key": "far/near/distance-type", "msg": "%s: distance to %s has shape %r dtype %s" % (where, label, d.shape, d.dtype)})
+                    continue
+                d = float(d)
+                cls = "self" if s == 0.0 else "close"
+                if d != d:
+                    v.append({"key": "far/near/nan/%s" % cls, "msg": "%s: distance to %s%s is NaN (expected %g)" % (where, label, order, s)})
+                elif not (np.isfinite(d) and d >= 0.0):
+                    v.append({"key": "far/near/not-finite-nonnegative/%s" % cls, "msg": "%s: distance to %s%s is %r" % (where, label, order, d)})
+                elif not abs(d - s) <= tol:
+                    v.append({"key": "far/near/value/%s" % cls, "msg": "%s: distance to %s%s is %r, expected %g (tol %.3g)" % (where, label, order, d, s, tol)})
+                elif s == 0.0 and d == 0.0:
+                    zero_class += 1
+    seen, uniq = set(), []
+    for x in v:
+        if x["key"] not in seen:
+            seen.add(x["key"])
+            uniq.append(x)
+    return {"v": uniq, "t": t, "o": "%d|%g|%s|%d|%d" % (n, R, start, len(uniq), min(zero_class, 3)), "nt": True}
 
 
 def far_cases(dims, seed, q):
@@ -408,6 +455,166 @@ def far_cases(dims, seed, q):
                     break
             for start in FAR_START:
                 yield {"n": n, "R": R, "u": u, "start": start, "partners": [[r, d] for r, d in partners]}
+
+
+# ------------------------------------------------------------------------------------------
+# close clusters: a handful of points within Klein distance s (1e-2 .. 1e-6) of a lattice point (the origin
+# included: then every point of the cluster has tiny Klein radius and its homogeneous coordinates are
+# "almost" unit hyperboloid vectors).  Nearby distinct points are distinct: their distance is the small
+# positive number the metric says, in every model, through every constructor -- not 0, and not what some
+# "already normalised" / "already equal" shortcut would give.
+# Truth: sinh d = sqrt(|D|^2 (1-|a|^2) + (a.D)^2) / sqrt((1-|a|^2)(1-|b|^2)), D = b - a (Klein metric rewritten
+# without cancellation; relative error ~ eps |a| / |D|).
+# ------------------------------------------------------------------------------------------
+CLOSE_SCALES = [1e-2, 3e-3, 1e-3, 1e-4, 1e-5, 1e-6]
+CLOSE_SCALES_QUICK = [1e-3, 1e-6]
+CLOSE_VARIANTS = VARIANTS + [["projective", 1.000003]]    # a representative that is close to, but not on, the hyperboloid near the origin
+
+
+def close_truth(a, b):
+    D = b - a
+    na, nb = 1.0 - float(a @ a), 1.0 - float(b @ b)
+    return math.asinh(math.sqrt((float(D @ D) * na + float(a @ D) ** 2) / (na * nb)))
+
+
+def close_cluster(a, s, n, seed):
+    """Klein points: the centre, +-s and s/2 along w1, s along w2 (orthogonal to w1, n >= 2), s along a generic direction."""
+    a = np.asarray(a, dtype=float)
+    r = float(np.linalg.norm(a))
+    w1 = a / r if r > 0 else np.eye(n)[0]
+    pts = [a, a + s * w1, a + 0.5 * s * w1, a - s * w1]
+    if n >= 2:
+        e = np.eye(n)[int(np.argmin(np.abs(w1)))]
+        w2 = e - float(e @ w1) * w1
+        w2 = w2 / np.linalg.norm(w2)
+        pts += [a + s * w2, a + s * lattice.generic_dir(n, 7, seed)]
+    return [p.tolist() for p in pts]
+
+
+def case_close(case):
+    n, s = case["n"], case["s"]
+    pts = [np.asarray(p, dtype=float) for p in case["pts"]]
+    cls = "origin-cluster" if not np.any(pts[0]) else "ball"
+    N, V = len(pts), len(CLOSE_VARIANTS)
+    v, t, seen = [], 0, set()
+
+    def add(key, msg):
+        if key not in seen:
+            seen.add(key)
+            v.append({"key": key, "msg": msg})
+
+    ch = [1.0 / math.sqrt(1.0 - float(p @ p)) for p in pts]            # cosh of the distance from the origin
+    T = np.array([[0.0 if i == j else close_truth(pts[i], pts[j]) for j in range(N)] for i in range(N)])
+    # |<x,y>| of the two unit hyperboloid vectors is cosh d + e, |e| <= a few eps cosh R_x cosh R_y (measured <= 2);
+    # rounding of the input coordinates moves each point by <= ~50 eps in every model (|k| <= 0.91)
+    TOLM = np.array([[acosh_tol(T[i, j], 16.0 * EPS * ch[i] * ch[j]) + 1e-13 + 1e-9 * T[i, j] for j in range(N)] for i in range(N)])
+    # the five closed-form metrics on oracle coordinates: each carries the same arccosh conditioning
+    orac = {m: np.array([[float(hyp.dist_in_model(m, hyp.klein_to(m, pts[i]), hyp.klein_to(m, pts[j]))) for j in range(N)]
+                         for i in range(N)]) for m in hyp.MODELS}
+    for m, om in orac.items():
+        if not np.all(np.abs(om - T) <= TOLM):
+            raise AssertionError("HARNESS: oracle %s metric disagrees with the cancellation-free form: %r vs %r" % (m, om.tolist(), T.tolist()))
+
+    def fresh(i, a):
+        m, r = CLOSE_VARIANTS[a]
+        return build(oracle_coords(m, pts[i], r), m, VIAS[(i + a) % 2])
+
+    def name(i, a):
+        return "%s*%r %r" % (CLOSE_VARIANTS[a][0], CLOSE_VARIANTS[a][1], pts[i].tolist())
+
+    wrong = set()
+
+    def judge(P, Q, i, a, j, b, state):
+        """One reported distance against the truth and the five closed-form metrics; returns it (NaN if unusable)."""
+        d = np.asarray(P.distance(Q))
+        who = "H^%d d(%s, %s) [%s objects]" % (n, name(i, a), name(j, b), state)
+        if d.shape != () or d.dtype.kind != "f":
+            add("close/distance-type", "%s has shape %r dtype %s" % (who, d.shape, d.dtype))
+            return float("nan")
+        d = float(d)
+        kind = "self" if i == j else "distinct"
+        if d != d:
+            add("close/distance/nan/%s" % kind, "%s is NaN (true distance %.6g)" % (who, T[i, j]))
+        elif not (np.isfinite(d) and d >= 0.0):
+            add("close/distance/not-finite-nonnegative", "%s = %r" % (who, d))
+            return float("nan")
+        elif not abs(d - T[i, j]) <= TOLM[i, j]:
+            add("close/distance/value/%s/%s" % (cls, kind),
+                "%s = %.12g, the points are at distance %.12g (tol %.3g; closed-form model metrics on oracle coordinates: %s)" % (
+                    who, d, T[i, j], TOLM[i, j], ", ".join("%s %.12g" % (m, om[i, j]) for m, om in orac.items())))
+            wrong.add((i, a, j, b))
+        else:
+            for m, om in orac.items():
+                if not abs(d - om[i, j]) <= 2.0 * TOLM[i, j]:
+                    add("close/model-metric/%s/%s" % (m, cls),
+                        "%s = %.12g, closed-form %s metric on oracle coordinates gives %.12g" % (who, d, m, om[i, j]))
+        return d
+
+    D = np.full((N, V, N, V), np.nan)
+    with warnings.catch_warnings():
+        warnings.simplefilter("ignore")       # arccosh of an argument below 1 warns and gives NaN
+        # (a) freshly built objects for every ordered pair of points (x = x included), every variant of the first
+        #     against the variant four places on (another model): Point.distance renormalises the stored
+        #     coordinates in place, so only fresh objects show what the constructor stored
+        for i, a, j in itertools.product(range(N), range(V), range(N)):
+            b = (a + 4) % V
+            P, Q = fresh(i, a), fresh(j, b)
+            d = judge(P, Q, i, a, j, b, "fresh")
+            t += 1
+            if d == d and i <= j and (i, a, j, b) not in wrong:
+                for m in hyp.MODELS:                       # the model's own metric on the coordinates the library reports
+                    dm = float(hyp.dist_in_model(m, P.coords(m), Q.coords(m)))
+                    t += 2
+                    if not abs(d - dm) <= 2.0 * TOLM[i, j]:
+                        add("close/own-coordinates/%s/%s" % (m, cls),
+                            "H^%d d(%s, %s) = %.12g, closed-form %s metric on the library's own coordinates gives %.12g" % (
+                                n, name(i, a), name(j, b), d, m, dm))
+        # (b) one object per (point, variant), used over and over: the full matrix
+        objs = [[fresh(i, a) for a in range(V)] for i in range(N)]
+        for i, a, j, b in itertools.product(range(N), range(V), range(N), range(V)):
+            D[i, a, j, b] = judge(objs[i][a], objs[j][b], i, a, j, b, "re-used")
+            t += 1
+    ok = np.isfinite(D)
+    # symmetry
+    Dt = D.transpose(2, 3, 0, 1)
+    bad = np.argwhere(ok & np.isfinite(Dt) & ~(np.abs(D - Dt) <= 2.0 * TOLM[:, None, :, None]))
+    if len(bad):
+        i, a, j, b = bad[0]
+        add("close/symmetry", "H^%d: d(x,y)=%.12g but d(y,x)=%.12g for x=%s %r, y=%s %r" % (
+            n, D[i, a, j, b], D[j, b, i, a], CLOSE_VARIANTS[a], pts[i].tolist(), CLOSE_VARIANTS[b], pts[j].tolist()))
+    # triangle inequality over all triples of (point, variant) objects
+    tight = -1
+    if np.all(ok) and not wrong:
+        M = D.reshape(N * V, N * V)
+        TM = np.repeat(np.repeat(TOLM, V, axis=0), V, axis=1)
+        slack = M[:, :, None] + M[None, :, :] - M[:, None, :]
+        allow = TM[:, :, None] + TM[None, :, :] + TM[:, None, :]
+        bad = np.argwhere(slack < -allow)
+        if len(bad):
+            x, y, z = bad[0]
+            add("close/triangle-inequality/%s" % cls,
+                "H^%d: d(x,z)=%.9g > d(x,y)+d(y,z)=%.9g+%.9g for x=%r y=%r z=%r (%d triples)" % (
+                    n, M[x, z], M[x, y], M[y, z], pts[x // V].tolist(), pts[y // V].tolist(), pts[z // V].tolist(), len(bad)))
+        tight = int(np.sum(slack < allow))
+    # the whole cluster as one composite Point against the cluster shifted by one place
+    for a in range(V):
+        m, r = CLOSE_VARIANTS[a]
+        m2, r2 = CLOSE_VARIANTS[(a + 3) % V]
+        P = build(np.stack([oracle_coords(m, k, r) for k in pts]), m)
+        for sh in (1, 0):
+            idx = [(i + sh) % N for i in range(N)]
+            Q = build(np.stack([oracle_coords(m2, pts[i], r2) for i in idx]), m2)
+            d = np.asarray(_dist(P, Q))
+            t += 1
+            want = np.array([T[i, idx[i]] for i in range(N)])
+            tol = np.array([TOLM[i, idx[i]] for i in range(N)])
+            if d.shape != (N,) or d.dtype.kind != "f":
+                add("close/composite/distance-type", "H^%d composite cluster: distance has shape %r dtype %s" % (n, d.shape, d.dtype))
+            elif not np.all(np.abs(d - want) <= tol):      # NaN fails too
+                add("close/composite/%s/%s" % ("nan" if np.any(np.isnan(d)) else "value", cls),
+                    "H^%d composite cluster %r (from %s*%g) to the same cluster shifted by %d (from %s*%g): distances %r, expected %r" % (
+                        n, [p.tolist() for p in pts], m, r, sh, m2, r2, d.tolist(), want.tolist()))
+    return {"v": v, "t": t, "o": "%d/%g/%s/%d/%d" % (n, s, cls, tight, len(v)), "nt": True}
 
 
 # ------------------------------------------------------------------------------------------
@@ -469,6 +676,25 @@ def run(ctx):
                          "oracle": "closed forms in (R, u): (cosh R, sinh R u), tanh(R) u, tanh(R/2) u"})
     ctx.tolerances["far points"] = ("1e-9 scaled by max(1, 1e-7 cosh^2 R) when the point is GIVEN in Klein/Poincare/half-space coordinates "
                                     "(1-|k|^2 = 1/cosh^2 R is then only known to eps cosh^2 R); exact class from hyperboloid coordinates")
+
+    cdims = [1, 2, 3, 4]
+    cscales = CLOSE_SCALES_QUICK if q else CLOSE_SCALES       # away from the origin; the origin cluster takes every scale
+    cases = [{"n": n, "s": s, "pts": close_cluster(a, s, n, seed)} for n in cdims
+             for a in lattice.klein_points(n, 2 if q else 6, seed, 0.9) for s in (cscales if np.any(a) else CLOSE_SCALES)]
+    ctx.product("close-clusters", "checks.c01:case_close", cases, chunk=1,
+                domains={"dimensions": cdims, "centres per dimension": {n: len(lattice.klein_points(n, 2 if q else 6, seed, 0.9)) for n in cdims},
+                         "scales (Klein separation)": {"origin": CLOSE_SCALES, "other centres": cscales},
+                         "cluster": "centre a, a+-s w1, a+s/2 w1, a+s w2, a+s g (w1 radial, w2 orthogonal, g generic)",
+                         "(model, representative)^2": "%d re-used objects, %d x (variant, variant+4) fresh objects" % (len(CLOSE_VARIANTS) ** 2, len(CLOSE_VARIANTS)),
+                         "per case": "all ordered pairs incl. x=x, symmetry, all triples of (point, variant), composite vs shifted composite"})
+    ctx.assume("close clusters: centres of Klein radius <= 0.9, separations 1e-6 .. 1e-2 (so distances >= 5e-7)")
+    ctx.tolerances["close pairs"] = ("|d - truth| <= min(sqrt(2 e), 2 e / sinh d) + 1e-13 + 1e-9 d with e = 16 eps cosh R_x cosh R_y the rounding of "
+                                     "the Minkowski product of unit vectors (measured <= 2 eps cosh cosh): relative error ~ eps / d^2, i.e. "
+                                     "<= 1.5e-8 absolute at d = 1e-6 near the origin; closed-form model metrics (same conditioning) at twice that; "
+                                     "triangle slack = sum of the three tolerances")
+    ctx.tolerances["far self/close distances"] = ("d(x,x), d(x, equal copy from another model), d(x, same ray s further) for R <= 14: "
+                                                  "min(sqrt(2 e), 2 e / sinh s) + 32 eps cosh^2 R + 1e-9, e = 16 eps cosh^2 R (measured "
+                                                  "<= 1.5 sqrt(2 eps) cosh R); finite, >= 0 and not NaN unconditionally")
 
     shapes = lattice.SHAPES_QUICK if q else lattice.shapes()
     cases = []
